@@ -213,7 +213,8 @@ class DictList(list):
                 _dict[the_id] = i
             else:
                 # undo the extend and raise an error
-                self = self[:current_length]
+                list.__delitem__(self, slice(current_length, None))
+                self._generate_index()
                 self._check(the_id)
                 # if the above succeeded, then the id must be present
                 # twice in the list being added
